@@ -2,6 +2,7 @@ import Driver.Util
 import Driver.SemDrv
 import Driver.SSemDrv
 import Driver.SchedDrv
+import Driver.SchedCoDrv
 import Driver.RwDrv
 import Driver.SndDrv
 import Driver.SharedDrv
@@ -34,6 +35,7 @@ def dispatch (model : String) (c : Case) : String :=
   | "sem" => SemDrv.runCase c
   | "ssem" => SSemDrv.runCase c
   | "sched" => SchedDrv.runCase c
+  | "schedco" => SchedCoDrv.runCase c
   | "rw" => RwDrv.runCase c
   | "snd" => SndDrv.runCase c
   | "shared" => SharedDrv.runCase c
